@@ -6,13 +6,19 @@
     preserving inner products composed with a translation (5d), under uniform scaling by s > 0 with
     the area scaled by s*s (5e); the 48 signed axis permutations keep the value for EVERY cut-off (5f).
 
+    Nusselt branch (Model/Nusselt.v, Proofs/NusseltProofs.v): the model of [nusselt_analog] /
+    [nusselt_integration] is invariant under a common translation (6a) and under uniform scaling by
+    s > 0 (6b); the sample grid of a 4-vertex patch consists of the npointsx*npointsz cell centres (6c);
+    the assembly with both branches computed keeps the exact zeros and the i<j reciprocity (6d).
+
     NOT carried by any theorem (see NOT_CARRIED in harness/props/C05.py): F <= 1, the 2.5 % closure
-    of a closed room, every statement about the Nusselt branch. *)
+    of a closed room; for the Nusselt branch: accuracy, 0 <= F <= 1, reciprocity of the two-sided
+    kernel, rotation invariance. *)
 From Coq Require Import List Arith Bool Permutation.
 Import ListNotations.
 From SV Require Import Base.Ops Base.Arr Base.Sums Model.Vec3 Model.Exchange Model.Scene Model.Stokes
-  Spec.Isometry Proofs.FieldFacts Proofs.BooleExact Proofs.StokesAssembly Proofs.StokesSum
-  Proofs.StokesSimilarity.
+  Model.Nusselt Spec.Isometry Proofs.FieldFacts Proofs.BooleExact Proofs.StokesAssembly Proofs.StokesSum
+  Proofs.StokesSimilarity Proofs.NusseltProofs.
 
 (** (1) a pair that is not in the visible list has an exactly zero entry in the assembled
     form-factor matrix (zero initialised, only listed pairs are written), an exactly zero full
@@ -186,3 +192,115 @@ Proof.
   intros Hp H0 H1 H2. exact (stokes_integration_sperm sigma e0 e1 e2 Hp H0 H1 H2 cut pi pj a).
 Qed.
 Print Assumptions C05_similarity_axis_permutation.
+
+(** (6a) Nusselt branch, translation: [nusselt_analog] (evaluation point and receiver patch moved
+    together) and [nusselt_integration] (both patches moved) are unchanged -- in every commutative
+    ring, for all thresholds, normals and sample counts (every quantity is a function of coordinate
+    differences).  [2 <= length pi], [3 <= length pj]: the vertices the code indexes exist. *)
+Theorem C05_nusselt_translation {T} {O : Ops T} {RL : RingLaws T} (thr_seg thr_dot thr_lag : T)
+    (t o n : @vec T) (pi pj : list (@vec T)) (ni nj : @vec T) (ns : nat) :
+  2 <= length pi -> 3 <= length pj ->
+  nusselt_analog thr_seg thr_dot thr_lag (vadd o t) n (map (fun p => vadd p t) pj) nj =
+    nusselt_analog thr_seg thr_dot thr_lag o n pj nj /\
+  nusselt_integration thr_seg thr_dot thr_lag (map (fun p => vadd p t) pi) (map (fun p => vadd p t) pj) ni nj ns =
+    nusselt_integration thr_seg thr_dot thr_lag pi pj ni nj ns.
+Proof.
+  intros Hi Hj.
+  exact (conj (nusselt_analog_translate thr_seg thr_dot thr_lag t o n pj nj Hj)
+              (nusselt_integration_translate thr_seg thr_dot thr_lag t pi pj ni nj ns Hi Hj)).
+Qed.
+Print Assumptions C05_nusselt_translation.
+
+(** (6a') [universal_form_factor] with BOTH branches computed by the model is translation invariant,
+    branch decision ([_coincidence_check]) and Stokes cut-off included *)
+Theorem C05_universal_full_translation {T} {O : Ops T} {RL : RingLaws T}
+    (thres cut thr_seg thr_dot thr_lag : T) (t : @vec T) (src : list (@vec T)) (src_n : @vec T) (a : T)
+    (rcv : list (@vec T)) (rcv_n : @vec T) :
+  2 <= length src -> 3 <= length rcv ->
+  universal_ff_full thres cut thr_seg thr_dot thr_lag (map (fun p => vadd p t) src) src_n a
+                    (map (fun p => vadd p t) rcv) rcv_n =
+  universal_ff_full thres cut thr_seg thr_dot thr_lag src src_n a rcv rcv_n.
+Proof.
+  intros Hs Hr.
+  exact (universal_ff_full_translate thres cut thr_seg thr_dot thr_lag t src src_n a rcv rcv_n Hs Hr).
+Qed.
+Print Assumptions C05_universal_full_translation.
+
+(** (6b) Nusselt branch, uniform scaling by [s > 0] of both patches (normals unchanged): unchanged.
+    Ordered field with [SqrtLaws] ([sqrt(s*s*x) = s*sqrt x], the projection onto the unit sphere
+    normalises; [np.sign] ignores the factor [s*s]); the grid counts are [round] of ratios of side
+    lengths, which are unchanged when the two sampled sides [el[1]-el[0]], [el[-1]-el[0]] have
+    non-zero length.  [nusselt_analog] needs no side condition at all. *)
+Theorem C05_nusselt_scaling {T} {O : Ops T} {RL : RingLaws T} {OL : OrderLaws T} {FL : FieldLaws T}
+    {SL : SqrtLaws T} (thr_seg thr_dot thr_lag s : T) (o n : @vec T) (pi pj : list (@vec T))
+    (ni nj : @vec T) (ns : nat) :
+  (0 < s)%T ->
+  nusselt_analog thr_seg thr_dot thr_lag (vscale s o) n (map (vscale s) pj) nj =
+    nusselt_analog thr_seg thr_dot thr_lag o n pj nj /\
+  (vnorm (grid_u pi) <> 0%T -> vnorm (grid_v pi) <> 0%T ->
+   nusselt_integration thr_seg thr_dot thr_lag (map (vscale s) pi) (map (vscale s) pj) ni nj ns =
+     nusselt_integration thr_seg thr_dot thr_lag pi pj ni nj ns).
+Proof.
+  intros Hs.
+  exact (conj (nusselt_analog_scale s Hs thr_seg thr_dot thr_lag o n pj nj)
+              (nusselt_integration_scale s Hs thr_seg thr_dot thr_lag pi pj ni nj ns)).
+Qed.
+Print Assumptions C05_nusselt_scaling.
+
+(** (6c) [_surf_sample_regulargrid] on a patch that is not a triangle: [npointsx * npointsz] points,
+    and every point is [el[0] + s*u + t*v] with [s = (2i+1)/(2 npointsx)], [t = (2j+1)/(2 npointsz)]
+    -- the cell centres, strictly inside the parallelogram spanned by [u = el[1]-el[0]] and
+    [v = el[-1]-el[0]].  Ordered field with [FloorLaws] ([round(0.0) = 0] in the slice bound). *)
+Theorem C05_nusselt_grid_rectangle {T} {O : Ops T} {RL : RingLaws T} {OL : OrderLaws T} {FL : FieldLaws T}
+    {FlL : FloorLaws T} (el : list (@vec T)) (np : nat) :
+  length el <> 3 ->
+  length (surf_grid el np) = grid_nx el np * grid_nz el np /\
+  0 < grid_nx el np /\ 0 < grid_nz el np /\
+  forall p, In p (surf_grid el np) ->
+    exists i j, i < grid_nx el np /\ j < grid_nz el np /\
+      let s := (@tnat T O (2 * i + 1) / tnat (2 * grid_nx el np))%T in
+      let t := (@tnat T O (2 * j + 1) / tnat (2 * grid_nz el np))%T in
+      p = vadd (vadd (vscale s (grid_u el)) (vscale t (grid_v el))) (nthv el 0) /\
+      (0 < s)%T /\ (s < 1)%T /\ (0 < t)%T /\ (t < 1)%T.
+Proof.
+  intros H.
+  exact (conj (surf_grid_rect_length el np H)
+        (conj (grid_nx_pos el np) (conj (grid_nz_pos el np)
+              (fun p Hp => surf_grid_rect_inside el np p H Hp)))).
+Qed.
+Print Assumptions C05_nusselt_grid_rectangle.
+
+(** (6d) the assembly with both branches computed by the model ([patch2patch_ff_full]): a pair outside
+    the visible list holds an exact zero; a listed pair holds the model's Nusselt value when the patches
+    touch and the Stokes value otherwise; for a scene baked from it, invisible pairs have zero full form
+    factor / transfer factors and the i<j rule gives area_i F_ij = area_j F_ji. *)
+Theorem C05_full_assembly_entries {T} {O : Ops T} (thres cut thr_seg thr_dot thr_lag : T)
+    (pts : list (list (@vec T))) (normals : list (@vec T)) (areas : list T) (pairs : list (nat * nat)) (i j : nat) :
+  (pair_in pairs i j = false ->
+     get2 (patch2patch_ff_full thres cut thr_seg thr_dot thr_lag pts normals areas pairs) i j = 0%T) /\
+  (i < length areas -> j < length areas -> pair_in pairs i j = true ->
+     get2 (patch2patch_ff_full thres cut thr_seg thr_dot thr_lag pts normals areas pairs) i j =
+     if coincidence_check thres (nth j pts []) (nth i pts [])
+     then nusselt_ff thr_seg thr_dot thr_lag (nth i pts []) (nthv normals i) (nth j pts []) (nthv normals j)
+     else stokes_integration cut (nth i pts []) (nth j pts []) (nthT areas i)).
+Proof.
+  exact (conj (p2p_full_unlisted thres cut thr_seg thr_dot thr_lag pts normals areas pairs i j)
+              (p2p_full_listed thres cut thr_seg thr_dot thr_lag pts normals areas pairs i j)).
+Qed.
+Print Assumptions C05_full_assembly_entries.
+
+Theorem C05_full_assembly {T} {O : Ops T} {RL : RingLaws T} {OL : OrderLaws T} {FL : FieldLaws T}
+    (sc : @scene T) (thres cut thr_seg thr_dot thr_lag : T) pts normals i j :
+  s_F sc = patch2patch_ff_full thres cut thr_seg thr_dot thr_lag pts normals (s_areas sc) (vis_pairs sc) ->
+  (area sc i <> 0%T -> vis_sym sc i j = false ->
+     (if i <? j then get2 (s_F sc) i j else get2 (s_F sc) j i) = 0%T /\
+     ff_full sc i j = 0%T /\
+     forall d b, get4 (tilde sc) i j d b = 0%T) /\
+  (i <> j -> area sc i <> 0%T -> area sc j <> 0%T ->
+     (area sc i * ff_full sc i j)%T = (area sc j * ff_full sc j i)%T).
+Proof.
+  intros HF.
+  exact (conj (full_invisible_zero sc thres cut thr_seg thr_dot thr_lag pts normals i j HF)
+              (full_reciprocity sc thres cut thr_seg thr_dot thr_lag pts normals i j HF)).
+Qed.
+Print Assumptions C05_full_assembly.
